@@ -67,7 +67,31 @@ def install_coin(prefetch=100, activation=GENESIS_ACT):
     return coins.VerifCoin
 
 
+db_tweak = None     # optional callable(db) applied to every DB instance right after construction
+
+
+def small_files(db):
+    '''Shrink the logical metadata files so that writes and reads cross file boundaries (16 MB in production).'''
+    db.headers_file.file_size = 80 * 5
+    db.tx_counts_file.file_size = 8 * 7
+    db.hashes_file.file_size = 32 * 9 + 16      # deliberately not a multiple of the record size
+
+
+def _install_db_init_hook():
+    from electrumx.server.db import DB
+    if hasattr(DB, '_exv_init'):
+        return
+    DB._exv_init = DB.__init__
+
+    def __init__(self, env):
+        DB._exv_init(self, env)
+        if db_tweak is not None:
+            db_tweak(self)
+    DB.__init__ = __init__
+
+
 def make_env(dbdir, *, genesis_hash=None, prefetch=100, **extra):
+    _install_db_init_hook()
     coin = install_coin(prefetch)
     if genesis_hash is not None:
         coin.GENESIS_HASH = genesis_hash[::-1].hex()
@@ -390,6 +414,17 @@ async def open_db(dbdir, env=None, **env_extra):
 LIMITS = (None, 0, 1, 2, 1000)
 
 
+class ReadStuck(Exception):
+    '''A read of a quiescent index kept retrying ("tx hash not found (reorg?)") for 120 virtual seconds.'''
+
+
+async def guarded(coro, what):
+    try:
+        return await asyncio.wait_for(coro, 120)
+    except asyncio.TimeoutError:
+        raise ReadStuck(what) from None
+
+
 async def extract(db, hashxs, outpoints=(), raw=True, limits=True):
     '''Read every observable of the index through its public read path.'''
     st = db.state
@@ -411,13 +446,14 @@ async def extract(db, hashxs, outpoints=(), raw=True, limits=True):
     out['hist_limited'] = {}
     out['utxo'] = {}
     for k in hashxs:
-        full = await db.limited_history(k, limit=None)
+        full = await guarded(db.limited_history(k, limit=None), f'limited_history({k.hex()})')
         out['hist'][k] = full
         if limits:
             n = len(full)
             for lim in set(LIMITS[1:]) | {max(0, n - 1), n, n + 1}:
-                out['hist_limited'][(k, lim)] = await db.limited_history(k, limit=lim)
-        out['utxo'][k] = sorted((u.tx_hash, u.tx_pos, u.value, u.height) for u in await db.all_utxos(k))
+                out['hist_limited'][(k, lim)] = await guarded(db.limited_history(k, limit=lim), f'limited_history({k.hex()},{lim})')
+        out['utxo'][k] = sorted((u.tx_hash, u.tx_pos, u.value, u.height)
+                                for u in await guarded(db.all_utxos(k), f'all_utxos({k.hex()})'))
     outpoints = list(outpoints)
     out['lookup'] = dict(zip(outpoints, await db.lookup_utxos(outpoints))) if outpoints else {}
     if raw:
